@@ -1,4 +1,5 @@
 import Driver.MeshOpsDrv
+import Driver.MeshMoreDrv
 import PolyVerif.Model.MeshSpec
 
 namespace Driver.C03
@@ -82,6 +83,12 @@ def oracle (name : String) (ts : List String) : Option Bool :=
   | "same_mesh" => do
       let (m, ts) ← pB ts; let (o, _) ← pB ts
       pure (decide (m = o))
+  | "crop_contract" => do   -- theorem crop_contract (Props/C03More): the vertex-level contract, ANY incoming index buffer
+      let (nm, ts) ← pTok ts; let (c, ts) ← pV3 ts; let (e, ts) ← pV3 ts
+      let (m, ts) ← pB ts; let (o, _) ← pB ts
+      let box : geometry.AABB Float := ⟨c, e⟩
+      let inside : PB → Bool := fun x => match v3? (unbits x) with | some v => box.Contains v | none => false
+      pure (decide (CropContract ⟨3, nm⟩ inside m o))
   | "crop_spec" => do
       let (nm, ts) ← pTok ts; let (c, ts) ← pV3 ts; let (e, ts) ← pV3 ts
       let (m, ts) ← pB ts; let (o, _) ← pB ts
@@ -298,7 +305,8 @@ def handle (op : String) (args : List String) : Option String :=
     | none, _ => none
   else if op.startsWith "c03.op." then
     let name := (op.drop 7).toString
-    (applyOp name args).map (showResults name)
+    if moreOps.contains name then (applyMore name args).map (showResults name)   -- Model/MeshMore.lean (round 2)
+    else (applyOp name args).map (showResults name)
   else none
 
 end Driver.C03
